@@ -29,6 +29,8 @@ def proj_q(x, unitf):
     if x != x:
         return -1, True
     v = 4.0 * x / unitf
+    if v in (float("inf"), float("-inf")):      # an overflowed boundary: off the lattice, clamped
+        return (2**30 if v > 0 else -(2**30)), False
     r = round(v)
     return int(r), abs(v - r) <= 1e-6 * max(1.0, abs(v))
 
@@ -271,6 +273,17 @@ def narrow_int_cases(ctx):
         ks3 = [int(k) for k in rng.integers(17000, 32768, size=L)]
         yield dict(kind="points", data=ks3, unit="1", n=max(1, L // 3), lastfull=bool(t % 2), reuse=False, ref="median",
                    minpts=1, minint=1, dtype="int16")
+    # narrow FLOAT types (D84): max + width rounds back to max (float32 at 2^24, float16 at 2^11), the mean of two
+    # float16 values above 32752 overflows
+    for ropen in (True, False):
+        for ref in refs[:3]:
+            yield dict(kind="width", data=[33554000, 33554430, 33554432, 33554200], unit="1", ropen=ropen, vrange=(33554000, None),
+                       offset=0, reuse=False, ref=ref, minpts=1, minint=1, dtype="float32")
+            yield dict(kind="width", data=[200, 4094, 4096, 3000], unit="1", ropen=ropen, vrange=(3600, None), offset=0, reuse=False,
+                       ref=ref, minpts=1, minint=1, dtype="float16")
+    for lastfull in (True, False):
+        yield dict(kind="points", data=[40000, 49984, 60000, 33024, 45056], unit="1", n=2, lastfull=lastfull, reuse=False,
+                   ref="median", minpts=1, minint=1, dtype="float16")
 
 
 def random_cases(ctx):
@@ -311,7 +324,7 @@ def judge(ctx, vc, caselist, label):
     recs = []
     for i, c in enumerate(caselist):
         recs.append(make_record(vc, i + 1, c))
-    failing = ctx.validate("Trace_C10", "Trace_C10.cfg", recs, chunk=40000)
+    failing = ctx.validate("Trace_C10", "Trace_C10.cfg", recs, chunk=40000, xss="1g")
     for i, c in enumerate(caselist):
         r = recs[i]
         nontrivial = len(set(c["data"])) > 1 or c["kind"] != "number"
